@@ -84,8 +84,14 @@ class Header:
 # Programmatically define headers:
 
 
-def mk_header(name, fields):
-    """Create a type which can parse this kind of header"""
+def mk_header(name, fields, byte_order=None):
+    """Create a type which can parse this kind of header
+
+    byte_order can be "<" (little endian) or ">" (big endian). When not
+    given, the native byte order is used.
+    """
+    if byte_order is not None:
+        fields = [field.with_byte_order(byte_order) for field in fields]
     members = {"_fields": fields}
     size = 0
     for field in fields:
@@ -227,8 +233,13 @@ class FormatField(HeaderField):
     """Field which uses ``struct`` to pack and unpack data"""
 
     def __init__(self, name, fmt):
+        self.fmt = fmt
         self.packer = struct.Struct(fmt)
         super().__init__(name=name, size=self.packer.size)
+
+    def with_byte_order(self, byte_order):
+        """Create a copy of this field with an explicit byte order."""
+        return FormatField(self.name, byte_order + self.fmt.lstrip("@=<>!"))
 
     def encode(self, value):
         return self.packer.pack(value)
